@@ -26,6 +26,20 @@ func canonical(b []byte) string {
 	})
 }
 
+// canonicalForm is the comparable text of a prepared workflow: dependency graph, output schemas and namespaces, keys
+// sorted and generated ids renamed.
+func canonicalForm(prepared workflow.ExecutableWorkflow) string {
+	tmp := &Result{}
+	tmp.DAG = dumpDAG(prepared)
+	dumpSchemas(prepared, tmp)
+	b, _ := json.Marshal(map[string]any{"dag": tmp.DAG, "schema": tmp.OutSchema, "namespaces": tmp.Namespaces})
+	// re-marshal through a generic value so that all object keys are sorted
+	var generic any
+	_ = json.Unmarshal(b, &generic)
+	b, _ = json.Marshal(generic)
+	return canonical(b)
+}
+
 // prep_many: parse and prepare the same files extra.reps times in one process (Go randomises map iteration
 // every time) and report how many distinct verdicts / canonical forms were seen.
 func init() {
@@ -46,8 +60,16 @@ func init() {
 		forms := map[string]int{}
 		verdicts := map[string]int{}
 		var first string
+		shareRegistry := false
+		if v, ok := c.Extra["share_registry"]; ok {
+			_ = json.Unmarshal(v, &shareRegistry)
+		}
+		sharedReg, sharedCfg, sharedErr := newRegistry(logger)
 		for i := 0; i < reps; i++ {
-			reg, cfg, err := newRegistry(logger)
+			reg, cfg, err := sharedReg, sharedCfg, sharedErr
+			if !shareRegistry {
+				reg, cfg, err = newRegistry(logger)
+			}
 			if err != nil {
 				res.ParseErr = "harness: " + err.Error()
 				return
@@ -64,15 +86,7 @@ func init() {
 				continue
 			}
 			verdicts["accepted"]++
-			tmp := &Result{}
-			tmp.DAG = dumpDAG(prepared)
-			dumpSchemas(prepared, tmp)
-			b, _ := json.Marshal(map[string]any{"dag": tmp.DAG, "schema": tmp.OutSchema, "namespaces": tmp.Namespaces})
-			// re-marshal through a generic value so that all object keys are sorted
-			var generic any
-			_ = json.Unmarshal(b, &generic)
-			b, _ = json.Marshal(generic)
-			cs := canonical(b)
+			cs := canonicalForm(prepared)
 			if first == "" {
 				first = cs
 			}
